@@ -2,11 +2,21 @@
 """Markdown table of the seeded changes and which checks caught them (from /verif/seeded/*/meta.json)."""
 import glob, json, os
 rows = []
+# tests of the repository that also fail intermittently on the unchanged tree when the machine is loaded
+FLAKY = {"TestEngine_plumbing_ReplayedHeaders", "TestEngine_mirrorSkipsAhead", "TestMirror_HandleProposedHeader",
+         "TestMirror_pastInitialHeight", "TestGblsminsig", "TestDaisyChainInmem", "TestEngine_wiring_validatorChanges"}
 for d in sorted(glob.glob("/verif/seeded/*/meta.json")):
     m = json.load(open(d))
     name = os.path.basename(os.path.dirname(d))
     ok = m.get("confirmed_by_coordinator", {})
-    conf = "yes" if ok.get("patch_applies") and ok.get("demo_passes_without") and ok.get("demo_fails_with_change") and (ok.get("existing_tests") or {}).get("pass") else "partly"
+    et = ok.get("existing_tests") or {}
+    failed = [x.split()[2] for x in et.get("failed", []) if x.startswith("--- FAIL:")]
+    only_flaky = bool(failed) and all(f in FLAKY for f in failed)
+    conf = "partly"
+    if ok.get("patch_applies") and ok.get("demo_passes_without") and ok.get("demo_fails_with_change"):
+        conf = "yes" if et.get("pass") else ("yes*" if only_flaky else "partly")
+    if m.get("retired"):
+        conf = "retired"
     caught, missed = [], []
     for pid, r in sorted((m.get("checks_run") or {}).items()):
         if r.get("quick_exit") == 1:
@@ -19,3 +29,4 @@ for d in sorted(glob.glob("/verif/seeded/*/meta.json")):
     rows.append("| %s | %s | %s | %s | %s |" % (name, title, conf, ", ".join(caught) or "—", ", ".join(missed) or "—"))
 print("| seed | change | confirmed | caught by | not caught by |\n|---|---|---|---|---|")
 print("\n".join(rows))
+print("\n`yes*`: confirmed, but while the package tests ran on the loaded machine only tests that are also flaky on the unchanged tree failed (" + ", ".join(sorted(FLAKY)) + "). `retired`: see text.")
